@@ -359,17 +359,23 @@ def c07_builtin_panic_site(case, params):
 
 
 def c07_size_argument(case, params):
-    """Resource exhaustion (allocation failure abort, capacity-overflow panic or no answer within the time bound)
-    of a built-in whose work / allocation is proportional to a numeric argument, called with a magnitude >= 2^16."""
-    if case.get("search") != "builtin" or case.get("builtin") not in params.get("builtins", []):
-        return False
-    if case.get("outcome") not in ("crash", "hang", "panic"):
-        return False
-    if case.get("outcome") == "panic" and not re.search(params.get("panic_re", "capacity overflow|alloc"), case.get("panic", "")):
+    """Resource exhaustion of a built-in whose work / allocation is proportional to a numeric argument, called with a
+    magnitude >= 2^16: allocation-failure abort (`memory allocation of N bytes failed`), capacity-overflow / memory-overflow
+    panic (any built-in: the symptom is unambiguous), or no answer within the time bound (listed built-ins only)."""
+    if case.get("search") != "builtin":
         return False
     big = {"u16", "i32", "u32", "i64", "u64", "huge", "char", "inf"}
-    return any(k in ("int", "big", "float", "rat", "bigrat") and c in big
-               for k, c in zip(case.get("arg_kinds", []), case.get("arg_classes", [])))
+    if not any(k in ("int", "big", "float", "rat", "bigrat") and c in big
+               for k, c in zip(case.get("arg_kinds", []), case.get("arg_classes", []))):
+        return False
+    out = case.get("outcome")
+    if out == "crash":
+        return "memory allocation of" in case.get("stderr", "") or case.get("builtin") in params.get("builtins", [])
+    if out == "panic":
+        return re.search(params.get("panic_re", "capacity overflow|alloc"), case.get("panic", "")) is not None
+    if out == "hang":
+        return case.get("builtin") in params.get("builtins", [])
+    return False
 
 
 def c07_jit_native_panic(case, params):
@@ -819,8 +825,8 @@ def run(ck):
             jcases.append(["(define (c07-jit-f x) %s)" % form, "(c07-jit-f %s)" % a[2], "(c07-jit-f %s)" % a[2], PROBE])
             jmeta.append((form, a))
     t0 = time.time()
-    jon = run_cases(ck, jcases, prelude=SWEEP_PRELUDE, env={"STEEL_JIT": "true"}, fresh=True, batch=25, stall=15)
-    joff = run_cases(ck, jcases, prelude=SWEEP_PRELUDE, env={"STEEL_JIT": "false"}, fresh=True, batch=25, stall=15)
+    jon = run_cases(ck, jcases, prelude=SWEEP_PRELUDE, env={"STEEL_JIT": "true"}, fresh=False, batch=25, stall=20)
+    joff = run_cases(ck, jcases, prelude=SWEEP_PRELUDE, env={"STEEL_JIT": "false"}, fresh=False, batch=25, stall=20)
     ck.log("JIT sweep: %d cases x2 in %.0fs" % (len(jcases), time.time() - t0))
     jf = {}
     for (form, a), units, r1, r0 in zip(jmeta, jcases, jon, joff):
